@@ -134,8 +134,14 @@ func c05Collections(o opts, g *gen.G, w *emit.Writer) error {
 			for u, r := range rows {
 				m := db.Make(T, "", map[string]val.Val{"name": r["name"], "ss": shuffled(r["ss"])})
 				fu, _, err := rc.RowByModel(m)
-				if err != nil || fu != u {
+				// (an index is usable for a model only when the model holds a value other than the default in each
+				// of its columns)
+				usable := !r["name"].Equal(colOf(cols, "name").Default()) && len(r["ss"].Set) > 0
+				if usable && (err != nil || fu != u) {
 					fail("RowByModel with the name and set of row %s (elements in another order) finds %q (%v)", u, fu, err)
+				}
+				if !usable && fu != "" {
+					fail("RowByModel with a model that leaves a column of the only index unset finds row %q", fu)
 				}
 			}
 			// conditions on the indexed map column select what a scan selects: every map includes the empty map,
